@@ -232,8 +232,10 @@ where
             return Ok(vec![]);
         }
 
-        let reader = self.create_reader();
+        // Lock order is pages -> mmap (write() holds the pages lock while the page index is
+        // flushed through the mapping): take the pages guard before the reader pins the mapping.
         let pages = self.pages.read();
+        let reader = self.create_reader();
         let real_len = pages.stored_len(Self::PER_PAGE);
         let to = to.min(real_len);
         if from >= to {
